@@ -103,14 +103,15 @@ impl<T: SharedResource> ReloadFeatureFactory<T> {
                     (None, _) => true,
                     // NOTE: the same resource is used, so its total consumption stays the same
                     (Some(left_id), Some(right_id)) if left_id == right_id => true,
-                    // NOTE: activity states of a modified route are not yet in sync with its activities
-                    (Some(_), _) if route_ctx.is_stale() => !right_demand.is_not_empty(),
-                    // NOTE: the state keeps optional values
+                    // NOTE: the state keeps optional values. When availability is not known for the reload (e.g. activity
+                    // states of a just modified route are not in sync with its activities), nothing can be taken from it
                     (Some(_), _) => route_ctx
                         .state()
                         .get_activity_state::<SharedResourceStateKey, Option<T>>(left_idx)
                         .and_then(|resource_available| resource_available.as_ref())
-                        .is_none_or(|resource_available| resource_available.can_fit(right_demand)),
+                        .map_or(!right_demand.is_not_empty(), |resource_available| {
+                            resource_available.can_fit(right_demand)
+                        }),
                 }
             }
         });
